@@ -94,7 +94,11 @@ def _print_Piecewise(
         return all(isinstance(f, sympy.Abs) for f in cond.atoms(sympy.Function))
 
     try:
-        if all(algebraic(arg.cond) for arg in expr.args):
+        # simplify also rewrites the conditions of Piecewise expressions nested
+        # inside the branch values, so look at every relation of the expression
+        from sympy.core.relational import Relational
+
+        if all(algebraic(rel) for rel in expr.atoms(Relational)):
             simplified = sympy.simplify(expr)
         else:
             simplified = expr
